@@ -718,6 +718,30 @@ def run_hist(script, judge=None):
             G = env[st["g"]]
             val = graph_to_smi(G, preserve_atom_maps=list(st["preserve"]))
             out.append(_wm_obs(implicit_hydrogen(G, set(st["preserve"]))) if st["preserve"] else _wm_obs(G))
+        elif op == "gmlapi":        # the other ways into and out of the GML layer, on one reaction
+            from synkit.IO.chem_converter import smart_to_gml, gml_to_smart, rsmi_to_rsmarts, rsmi_to_graph
+            from synkit.IO.nx_to_gml import NXToGML
+            from synkit.Graph.ITS.its_construction import ITSConstruction
+            from synkit.Graph.ITS.its_decompose import get_rc, its_decompose
+            rs = st["rsmi"]
+            t0 = smart_to_gml(rs)
+            try:        # the SMARTS detour is RDKit's: it cannot always be re-read ([nH] aromatics); then the route is skipped
+                t1 = smart_to_gml(rsmi_to_rsmarts(rs), useSmiles=False)
+            except Exception:
+                t1 = t0
+            t2 = smart_to_gml(rs, True, True, "nm", False, False, True)
+            t3 = t0
+            r, p = rsmi_to_graph(rs)
+            rc = get_rc(ITSConstruction().ITSGraph(r, p))
+            r1, p1 = its_decompose(rc)
+            t4 = NXToGML.transform((r1, p1, rc), "x", False, ["charge", "hcount"], False)
+            t5 = NXToGML().transform((r1, p1, rc), rule_name="y", reindex=True, attributes=["hcount", "charge", "aromatic"])
+            val = [t0, t1, t2, t3, t4, t5]
+            def norm(t):
+                rec = text_to_rec(t)
+                return None if rec is None else [[sec, S([[e[0], e[1], e[2]] if e[0] == 0 else [1, min(e[1], e[2]), max(e[1], e[2]), e[3]] for e in es])]
+                                                 for sec, es in rec_obs(rec)]
+            out.append([[rec_obs(text_to_rec(t)), parsed_obs(t)] if i != 1 else [norm(t), parsed_obs(t)] for i, t in enumerate((t0, t1, t2, t4, t5))])
         elif op == "r2g":
             from synkit.IO.chem_converter import rsmi_to_graph
             kw = {}
@@ -834,6 +858,19 @@ def coq_hist(script):
             outs.append("L [%s]" % "; ".join(parts))
         elif op == "g2s_pres":
             outs.append("t_wmol (graph_to_smi_mol %s %s)" % (env[st["g"]], clist([cZ(x) for x in st["preserve"]])))
+        elif op == "gmlapi":
+            x = rxn_graphs(st["rsmi"])
+            if x is None:
+                raise Outside("reaction")
+            rs, ps = st["rsmi"].split(">>")
+            eo = clist(["(%s, %s)" % (cN(u), cN(v)) for u, v in x[2]])
+            r_, p_ = "(mol_to_graph %s true true)" % mvar(rs), "(mol_to_graph %s true true)" % mvar(ps)
+            same = "(let rec := smart_to_gml %s %s %s true false false in L [t_rec rec; t_parsed (gml_to_nx rec)])" % (r_, p_, eo)
+            def tr(sel, reindex):
+                return ("(let c := get_rc (its_construct %s %s %s) in let rec := nx_to_gml_sel %s (fst (its_decompose c)) (snd (its_decompose c)) c %s false "
+                        "in L [t_rec rec; t_parsed (gml_to_nx rec)])" % (r_, p_, eo, sel, cbool(reindex)))
+            samen = "(let rec := smart_to_gml %s %s %s true false false in L [t_rec_norm rec; t_parsed (gml_to_nx rec)])" % (r_, p_, eo)
+            outs.append("L [%s]" % "; ".join([same, samen, same, tr("(AS false false true true false)", False), tr("(AS false true true true false)", True)]))
         elif op == "r2g":
             sel, ko = _enc_asel(st)
             rs, ps = st["rsmi"].split(">>")
@@ -1020,6 +1057,23 @@ def _oracle_hist(case):
                     fails.append(_fail("smiles-roundtrip", "%s: graph_to_smi(graph of %r, preserve_atom_maps=%r) = %r is another molecule"
                                        % (tag, smi, st["preserve"], val),
                                        key="graph_to_smi:preserve_atom_maps:bare-hydrogen-dropped" if (bare and st["preserve"]) else None))
+        elif op == "gmlapi":
+            want = _ref_rule(st["rsmi"])
+            recs = [text_to_rec(t) for t in val]
+            names = ["smart_to_gml(r)", "smart_to_gml(rsmarts, useSmiles=False)", "smart_to_gml with positional arguments",
+                     "smart_to_gml(r) again", "NXToGML.transform(attributes=[charge, hcount])",
+                     "NXToGML.transform(reindex=True, attributes=[hcount, charge, aromatic])"]
+            if any(x is None for x in recs):
+                fails.append(_fail("gml-text", "%s: output is not of the documented line format" % tag))
+            elif want is not None:
+                for nm, rec in list(zip(names, recs))[:4]:
+                    if _rule_struct(rec) != want:
+                        fails.append(_fail("gml-two-routes", "%s: %s is not the reaction-centre rule of %r" % (tag, nm, st["rsmi"][:70])))
+                from synkit.IO.chem_converter import gml_to_its
+                for nm, t in list(zip(names, val))[4:]:
+                    back = _rule_struct(text_to_rec(__import__("synkit.IO.chem_converter", fromlist=["its_to_gml"]).its_to_gml(gml_to_its(t), core=False, reindex=False)))
+                    if not _iso_struct(back, want):
+                        fails.append(_fail("gml-roundtrip", "%s: the rule written by %s does not read back as the reaction centre" % (tag, nm)))
         elif op == "r2g":
             keep, ko = _sel_of(st)
             for side, G in zip(st["rsmi"].split(">>"), val):
@@ -1682,6 +1736,7 @@ def _rxn_hist_scripts(rsmi):
     return [
         ("rxn-reduced-then-rule", [dict(op="r2g", rsmi=rsmi, attrs=["element"]), dict(op="smart", rsmi=rsmi, cfg=[True, False, False]),
                                    dict(op="its2gml", rsmi=rsmi, cfg=[True, True, False]), dict(op="r2g", rsmi=rsmi)]),
+        ("rxn-gml-api", [dict(op="gmlapi", rsmi=rsmi), dict(op="smart", rsmi=rsmi, cfg=[True, False, False])]),
         ("rxn-rules-in-sequence", [dict(op="smart", rsmi=rsmi, cfg=[True, True, False]), dict(op="smart", rsmi=rsmi, cfg=[True, False, True]),
                                    dict(op="its2gml", rsmi=rsmi, cfg=[False, False, False]), dict(op="smart", rsmi=rsmi, cfg=[True, False, False]),
                                    dict(op="its2gml", rsmi=rsmi, cfg=[True, False, False]), dict(op="r2g", rsmi=rsmi, attrs=["charge", "element", "atom_map"], eattrs=[])]),
